@@ -58,8 +58,15 @@ func gen(t *rapid.T) Case {
 		// the shape that matters most: pool a connection, kill, (touch the dead connection), wait
 		// longer than KeepAlive, restart
 		a := rapid.IntRange(0, c.Cfg.Addrs-1).Draw(t, "sa")
-		c.Ops = append(c.Ops, Op{K: "call", A: a, Form: rapid.SampledFrom(syncForms).Draw(t, "sform")}, Op{K: "kill", A: a})
-		if rapid.Bool().Draw(t, "touch") {
+		// as many calls as the pool may hold connections (every call dials until the pool is full)
+		pool := rapid.IntRange(1, 3).Draw(t, "pool_calls")
+		for k := 0; k < pool; k++ {
+			c.Ops = append(c.Ops, Op{K: "call", A: a, Form: rapid.SampledFrom(syncForms).Draw(t, "sform")})
+		}
+		c.Ops = append(c.Ops, Op{K: "kill", A: a})
+		// the dead connections are noticed one at a time: 0..pool failing calls before the pause
+		touch := rapid.IntRange(0, pool).Draw(t, "touch")
+		for k := 0; k < touch; k++ {
 			c.Ops = append(c.Ops, Op{K: "call", A: a, Form: rapid.SampledFrom(syncForms).Draw(t, "sform2")})
 		}
 		c.Ops = append(c.Ops, Op{K: "sleep", Ticks: spacing()})
